@@ -483,8 +483,12 @@ fn index_twice<T>(slc: &mut [T], a: usize, b: usize) -> Pair<&mut T> {
     if max(a, b) >= slc.len() {
         Pair::None
     } else if a == b {
+        #[cfg(feature = "verif-hooks")]
+        crate::verif::hit(crate::verif::Site::graph_index_twice_one);
         Pair::One(&mut slc[max(a, b)])
     } else {
+        #[cfg(feature = "verif-hooks")]
+        crate::verif::hit(crate::verif::Site::graph_index_twice_both);
         // safe because a, b are in bounds and distinct
         unsafe {
             let ptr = slc.as_mut_ptr();
@@ -786,6 +790,8 @@ where
             Some(ed) => ed.next,
         };
 
+        #[cfg(feature = "verif-hooks")]
+        crate::verif::hit(crate::verif::Site::graph_remove_node_swapped);
         // The swapped element's old index
         let old_index = NodeIndex::new(self.nodes.len());
         let new_index = a;
@@ -871,6 +877,8 @@ where
             Some(ed) => ed.node,
         };
         let swapped_e = EdgeIndex::new(self.edges.len());
+        #[cfg(feature = "verif-hooks")]
+        crate::verif::hit(crate::verif::Site::graph_remove_edge_swapped);
 
         // Update the edge lists by replacing links to the old index by references to the new
         // edge index.
@@ -1556,6 +1564,8 @@ where
     #[cfg(feature = "serde-1")]
     /// Fix up node and edge links after deserialization
     fn link_edges(&mut self) -> Result<(), NodeIndex<Ix>> {
+        #[cfg(feature = "verif-hooks")]
+        crate::verif::hit(crate::verif::Site::serde_link_edges_graph);
         for (edge_index, edge) in enumerate(&mut self.edges) {
             let a = edge.source();
             let b = edge.target();
